@@ -258,5 +258,51 @@ func TestVerifBigIntBridge(t *testing.T) {
 			}
 		}
 	}
+	// after a failed decode math/big can leave a zero with the previous sign flag; an inline BigInt stores it as a
+	// plain zero, a heap-resident one holds that very big.Int: value and Sign must agree, the other observers are
+	// compared only when math/big's own value is well formed
+	checkDecoded := func(what string, got *BigInt, w *big.Int) {
+		if len(w.Bits()) == 0 && w.Cmp(new(big.Int)) != 0 {
+			if got.Sign() != 0 || got.MathBigInt().Sign() != 0 || len(got.MathBigInt().Bits()) != 0 {
+				t.Fatalf("%s: got %s (sign %d) want zero", what, got.String(), got.Sign())
+			}
+			return
+		}
+		check(what, got, w)
+	}
+	// failed decodes: math/big leaves an undefined but well-formed value in the receiver; the BigInt must mirror it
+	// (the partial digits were written into the BigInt's own inline words through the header)
+	for _, zs := range pool {
+		for rep := 0; rep < 2; rep++ {
+			for _, txt := range []string{"0z", "12x", "1e5", "-7q", "", "-", "99999999999999999999999999999999999999999z", "0x1g"} {
+				z, w := mk(zs, rep == 1), mb(zs)
+				e1, e2 := z.UnmarshalText([]byte(txt)), w.UnmarshalText([]byte(txt))
+				if (e1 == nil) != (e2 == nil) {
+					t.Fatalf("UnmarshalText(%q) on %s: error mismatch", txt, zs)
+				}
+				checkDecoded(fmt.Sprintf("UnmarshalText(%q) on %s", txt, zs), z, w)
+				z, w = mk(zs, rep == 1), mb(zs)
+				e1, e2 = z.UnmarshalJSON([]byte(txt)), w.UnmarshalJSON([]byte(txt))
+				if (e1 == nil) != (e2 == nil) {
+					t.Fatalf("UnmarshalJSON(%q) on %s: error mismatch", txt, zs)
+				}
+				checkDecoded(fmt.Sprintf("UnmarshalJSON(%q) on %s", txt, zs), z, w)
+				z, w = mk(zs, rep == 1), mb(zs)
+				_, ok1 := z.SetString(txt, 10)
+				_, ok2 := w.SetString(txt, 10)
+				if ok1 != ok2 {
+					t.Fatalf("SetString(%q) on %s: ok mismatch", txt, zs)
+				}
+				checkDecoded(fmt.Sprintf("SetString(%q) on %s", txt, zs), z, w)
+				z, w = mk(zs, rep == 1), mb(zs)
+				e1, e2 = z.GobDecode([]byte(txt)), w.GobDecode([]byte(txt))
+				if (e1 == nil) != (e2 == nil) {
+					t.Fatalf("GobDecode(%q) on %s: error mismatch", txt, zs)
+				}
+				checkDecoded(fmt.Sprintf("GobDecode(%q) on %s", txt, zs), z, w)
+				cases += 4
+			}
+		}
+	}
 	fmt.Printf("BOUNDED name=bigint-bridge bound=pool%dx%dx4reps x4alias cases=%d ok\n", len(pool), len(pool), cases)
 }
